@@ -29,7 +29,11 @@ Definition rendered_chunks (lhs rhs : list line) (n : Z) (cs : list (chunk line)
 
 (* everything the format theorems ask of a chunk list *)
 Definition well_formed (L R : list line) (cs : list (chunk line)) : Prop :=
-  patch_ok L R cs /\ normal_ok cs /\ context_ok cs /\ lines_nf cs.
+  patch_ok L R cs /\ normal_ok cs /\ context_ok cs /\ lines_nf cs /\ ranges_fit cs.
+
+(* files whose line numbers an int holds with room to spare: at most 2^61 - 1 lines (a Go slice
+   of strings that long does not fit in any memory) *)
+Definition file_fits (l : list line) : Prop := fits (llen l + 1).
 
 (* ---- from patch_ok ---- *)
 Lemma chunks_from_starts cs : forall lpos rpos (l r : list line),
@@ -39,6 +43,20 @@ Proof.
   intros lpos rpos l r H. induction H as [|lpos rpos g c cs l r HL HR HLe HRe _ IH]; intros Hl Hr; [constructor|].
   pose proof (llen_nonneg g). pose proof (llen_nonneg (consumed (edits c))). pose proof (llen_nonneg (produced (edits c))).
   constructor; [lia|]. apply IH; lia.
+Qed.
+
+(* where the chunks of a list that describes how l becomes r lie *)
+Lemma chunks_from_bounds cs : forall lpos rpos (l r : list line),
+  chunks_from lpos rpos l r cs ->
+  Forall (fun c => lpos <= LStart c /\ LStart c + llen (consumed (edits c)) = LEnd c /\ LEnd c <= lpos + llen l /\
+                   rpos <= RStart c /\ RStart c + llen (produced (edits c)) = REnd c /\ REnd c <= rpos + llen r) cs.
+Proof.
+  intros lpos rpos l r H. induction H as [|lpos rpos g c cs l r HL HR HLe HRe _ IH]; [constructor|].
+  pose proof (llen_nonneg g). pose proof (llen_nonneg (consumed (edits c))). pose proof (llen_nonneg (produced (edits c))).
+  pose proof (llen_nonneg l). pose proof (llen_nonneg r).
+  constructor.
+  - rewrite !llen_app. lia.
+  - eapply Forall_impl; [|exact IH]. intros c' Hc'. cbn beta in Hc'. rewrite !llen_app. lia.
 Qed.
 
 Lemma edits_nf (es : list (edit line)) :
@@ -102,18 +120,28 @@ Proof.
 Qed.
 
 Lemma assemble (L R : list line) cs :
-  Forall newline_free L -> Forall newline_free R ->
+  Forall newline_free L -> Forall newline_free R -> file_fits L -> file_fits R ->
   patch_ok L R cs -> Forall (@has_change line) cs ->
   Forall (fun c => Forall normal_edit_ok (edits c)) cs ->
   well_formed L R cs.
 Proof.
-  intros HL HR Hp Hch Hed. split; [exact Hp|]. split; [|split].
-  - pose proof (chunks_from_starts cs 1 1 L R Hp ltac:(lia) ltac:(lia)) as Hst.
-    unfold normal_ok. rewrite Forall_forall in *. intros c Hc.
-    destruct (Hst c Hc) as [H1 H2]. split; [exact H1|]. split; [exact H2 | apply Hed; exact Hc].
+  intros HL HR HfL HfR Hp Hch Hed.
+  pose proof (chunks_from_bounds cs 1 1 L R Hp) as Hb.
+  pose proof (llen_nonneg L) as HL0. pose proof (llen_nonneg R) as HR0.
+  unfold file_fits, fits in HfL, HfR.
+  split; [exact Hp|]. split; [|split; [|split]].
+  - unfold normal_ok. rewrite Forall_forall in *. intros c Hc.
+    destruct (Hb c Hc) as (H1 & H2 & H3 & H4 & H5 & H6).
+    pose proof (llen_nonneg (consumed (edits c))). pose proof (llen_nonneg (produced (edits c))).
+    split; [exact H1|]. split; [exact H4|]. split; [apply Hed; exact Hc|].
+    split; unfold fits; lia.
   - unfold context_ok. rewrite Forall_forall in *. intros c Hc. split; [apply Hed; exact Hc|].
     apply has_change_relevant. apply Hch. exact Hc.
   - exact (chunks_from_nf cs 1 1 L R Hp HL HR).
+  - unfold ranges_fit. rewrite Forall_forall in *. intros c Hc.
+    destruct (Hb c Hc) as (H1 & H2 & H3 & H4 & H5 & H6).
+    pose proof (llen_nonneg (consumed (edits c))). pose proof (llen_nonneg (produced (edits c))).
+    unfold chunk_fits, fits. lia.
 Qed.
 
 (* ---- the pipeline ---- *)
@@ -130,10 +158,10 @@ Proof.
 Qed.
 
 Lemma pipeline_nonneg (lhs rhs : list line) (n : Z) cs :
-  0 <= n -> Forall newline_free lhs -> Forall newline_free rhs ->
+  0 <= n -> Forall newline_free lhs -> Forall newline_free rhs -> file_fits lhs -> file_fits rhs ->
   rendered_chunks lhs rhs n cs -> well_formed lhs rhs cs.
 Proof.
-  intros Hn HL HR Hcs.
+  intros Hn HL HR HfL HfR Hcs.
   destruct (composed_patch_ok line bytes_eqb bytes_eqb_iff lhs rhs n)
     as (d1 & d2 & Ha & Hu & Hp0 & Hc0 & _ & _ & Hp2 & Hc2).
   destruct (composed_correct line bytes_eqb bytes_eqb_iff lhs rhs n Hn)
@@ -158,10 +186,10 @@ Qed.
 (* every chunk list the package hands to a FormatFunc for the diff of two newline-free texts
    satisfies the hypotheses of the format theorems: every n *)
 Theorem pipeline_well_formed (lhs rhs : list line) (n : Z) cs :
-  Forall newline_free lhs -> Forall newline_free rhs ->
+  Forall newline_free lhs -> Forall newline_free rhs -> file_fits lhs -> file_fits rhs ->
   rendered_chunks lhs rhs n cs -> well_formed lhs rhs cs.
 Proof.
-  intros HL HR Hcs. destruct (Z_lt_le_dec n 0) as [Hneg|Hn]; [|apply (pipeline_nonneg lhs rhs n); assumption].
+  intros HL HR HfL HfR Hcs. destruct (Z_lt_le_dec n 0) as [Hneg|Hn]; [|apply (pipeline_nonneg lhs rhs n); assumption].
   apply (pipeline_nonneg lhs rhs 0); try assumption; [lia|].
   destruct Hcs as [-> | (d1 & d2 & Ha & Hu & ->)]; [left; reflexivity|].
   right. exists d1, d2. split; [|split; [exact Hu | reflexivity]].
@@ -184,6 +212,8 @@ Section EndToEnd.
   Variables (lhs rhs : list line) (n : Z) (cs : list (chunk line)).
   Hypothesis lhs_nf : Forall newline_free lhs.
   Hypothesis rhs_nf : Forall newline_free rhs.
+  Hypothesis lhs_fits : file_fits lhs.
+  Hypothesis rhs_fits : file_fits rhs.
   Hypothesis Hcs : rendered_chunks lhs rhs n cs.
 
   Theorem e2e_normal :
@@ -191,7 +221,7 @@ Section EndToEnd.
     read_normal (normal cs) = ROk (normal_normalise cs) /\
     normal (normal_normalise cs) = normal cs.
   Proof.
-    destruct (pipeline_well_formed lhs rhs n cs lhs_nf rhs_nf Hcs) as (Hp & Hn & _ & Hl).
+    destruct (pipeline_well_formed lhs rhs n cs lhs_nf rhs_nf lhs_fits rhs_fits Hcs) as (Hp & Hn & _ & Hl & _).
     split; [apply apply_normal_text; assumption|]. split; [apply read_normal_normal; assumption | apply normal_reformat].
   Qed.
 
@@ -199,7 +229,7 @@ Section EndToEnd.
     info_ok time fi ->
     apply_context lhs (split_lines (context time_is_zero format_time fi cs)) = Some rhs.
   Proof.
-    intros Hfi. destruct (pipeline_well_formed lhs rhs n cs lhs_nf rhs_nf Hcs) as (Hp & _ & Hc & Hl).
+    intros Hfi. destruct (pipeline_well_formed lhs rhs n cs lhs_nf rhs_nf lhs_fits rhs_fits Hcs) as (Hp & _ & Hc & Hl & _).
     apply apply_context_text; assumption.
   Qed.
 
@@ -215,7 +245,7 @@ Section EndToEnd.
     unified time_is_zero format_time v (expected_info time fi cs) (unified_normalise cs)
     = unified time_is_zero format_time v fi cs.
   Proof.
-    intros Hfi. destruct (pipeline_well_formed lhs rhs n cs lhs_nf rhs_nf Hcs) as (Hp & _ & _ & Hl).
+    intros Hfi. destruct (pipeline_well_formed lhs rhs n cs lhs_nf rhs_nf lhs_fits rhs_fits Hcs) as (Hp & _ & _ & Hl & Hfit).
     split; [|split].
     - intros Hv. apply apply_unified_text; assumption.
     - intros Hv. apply (read_unified_unified time zero_time time_is_zero format_time parse_time); assumption.
